@@ -14,7 +14,8 @@ import (
 	"sync/atomic"
 	"time"
 
-	"github.com/datastax/go-cassandra-native-protocol/client"
+	"github.com/datastax/go-cassandra-native-protocol/compression/lz4"
+	"github.com/datastax/go-cassandra-native-protocol/compression/snappy"
 	"github.com/datastax/go-cassandra-native-protocol/crc"
 	"github.com/datastax/go-cassandra-native-protocol/frame"
 	"github.com/datastax/go-cassandra-native-protocol/primitive"
@@ -53,9 +54,46 @@ type rawPeer struct {
 
 func newRawPeer(conn net.Conn, v primitive.ProtocolVersion, comp primitive.Compression, chunk int) *rawPeer {
 	return &rawPeer{conn: conn, rd: bufio.NewReaderSize(conn, 1<<16), version: v, comp: comp, chunk: chunk,
-		frames:    frame.NewCodecWithCompression(client.NewBodyCompressor(comp)),
-		rawFrames: frame.NewRawCodecWithCompression(client.NewBodyCompressor(comp)),
-		segments:  segment.NewCodecWithCompression(client.NewPayloadCompressor(comp))}
+		frames:    frame.NewCodecWithCompression(specBodyCompressor(comp)),
+		rawFrames: frame.NewRawCodecWithCompression(specBodyCompressor(comp)),
+		segments:  segment.NewCodecWithCompression(specPayloadCompressor(comp))}
+}
+
+// The raw peer takes NOTHING about the protocol from package client (the code under test): the compressors are chosen here, by
+// the NAME of the algorithm negotiated in STARTUP, straight from the compression packages.
+//
+//	frame bodies (legacy framing, v2-v4 / DSE; specs section 5): "lz4" = LZ4 block preceded by the 4-byte big-endian uncompressed
+//	length; "snappy" = Snappy block.   segment payloads (v5 spec 2.2): LZ4 only; the lengths are in the segment header.
+func specBodyCompressor(c primitive.Compression) frame.BodyCompressor {
+	switch c {
+	case primitive.CompressionLz4:
+		return lz4.Compressor{}
+	case primitive.CompressionSnappy:
+		return snappy.Compressor{}
+	}
+	return nil
+}
+
+func specPayloadCompressor(c primitive.Compression) segment.PayloadCompressor {
+	if c == primitive.CompressionLz4 {
+		return lz4.Compressor{}
+	}
+	return nil
+}
+
+// SASL PLAIN token of the PasswordAuthenticator (RFC 4616: authzid NUL authcid NUL passwd), written out here
+func plainToken(user, password string) []byte {
+	return append(append(append([]byte{0}, user...), 0), password...)
+}
+
+// wrongAlgorithm: a body flagged COMPRESSED that does not decompress with the algorithm negotiated in STARTUP
+type wrongAlgorithm struct{ what string }
+
+func (e *wrongAlgorithm) Error() string { return e.what }
+
+func isWrongAlgorithm(err error) bool {
+	var e *wrongAlgorithm
+	return errors.As(err, &e)
 }
 
 func (p *rawPeer) write(b []byte) error {
@@ -126,7 +164,37 @@ func (p *rawPeer) readFrame() (*frame.Frame, error) {
 		return nil, err
 	}
 	_ = p.conn.SetReadDeadline(time.Now().Add(patience()))
-	return p.frames.DecodeFrame(p.rd)
+	// header and body bytes as they are on the wire first, then the body is decompressed with the NEGOTIATED algorithm
+	raw, err := p.rawFrames.DecodeRawFrame(p.rd)
+	if err != nil {
+		return nil, err
+	}
+	return p.convertNegotiated(raw)
+}
+
+// convertNegotiated decodes a raw frame, decompressing a flagged body with the algorithm negotiated in STARTUP
+func (p *rawPeer) convertNegotiated(raw *frame.RawFrame) (*frame.Frame, error) {
+	f, err := p.rawFrames.ConvertFromRawFrame(raw)
+	if err != nil && raw.Header.Flags.Contains(primitive.HeaderFlagCompressed) {
+		other := ""
+		for _, alt := range []primitive.Compression{primitive.CompressionLz4, primitive.CompressionSnappy} {
+			if alt == p.comp {
+				continue
+			}
+			cp := &frame.RawFrame{Header: raw.Header.DeepCopy(), Body: raw.Body}
+			if _, e2 := frame.NewRawCodecWithCompression(specBodyCompressor(alt)).ConvertFromRawFrame(cp); e2 == nil {
+				other = string(alt)
+			}
+		}
+		n := len(raw.Body)
+		if n > 16 {
+			n = 16
+		}
+		return nil, &wrongAlgorithm{fmt.Sprintf("version %d, %s negotiated in STARTUP: the %v on stream %d has the COMPRESSED flag and a %d-byte body %x... that does "+
+			"not decompress with %s (%v); it decompresses and decodes with: %q", p.version, compName(p.comp), raw.Header.OpCode, raw.Header.StreamId, len(raw.Body), raw.Body[:n],
+			compName(p.comp), err, other)}
+	}
+	return f, err
 }
 
 func isNotLegacy(err error) bool {
